@@ -3,7 +3,7 @@
 fits of GTC/type_a.py (property C13).  Usage: tr_type_a_fit.py <repo> <outdir>
 (or main(repo, outdir) from the driver).  Writes <outdir>/Gen_type_a_fit.v.
 
-For line_fit, _line_fit_wls, line_fit_wls, line_fit_rwls, the argument checks of the
+For _clip_r, line_fit, _line_fit_wls, line_fit_wls, line_fit_rwls, the argument checks of the
 line_fit_wtls wrapper and the six prediction methods (x_from_y / y_from_x of LineFitOLS,
 LineFitRWLS, LineFitWLS) it emits Num-parametric, res-monadic Gallina that is the same
 computation as the source in <repo>'s working tree: the same float operations in the same
@@ -125,6 +125,12 @@ class Comp:
             if isinstance(f, ast.Name) and f.id == 'abs' and len(e.args) == 1:
                 p, t, ty = self.expr(e.args[0])
                 return p, '(nabs N %s)' % self.toF(t, ty), 'F'
+            if isinstance(f, ast.Name) and f.id == '_clip_r' and len(e.args) == 1:
+                # the module's own helper, translated as g_fit_clip_r (emitted before its users)
+                if not self.have_clip: raise Untranslatable('_clip_r was not translated')
+                p, t, ty = self.expr(e.args[0])
+                v = self.fresh('c')
+                return p + ['%s <- g_fit_clip_r N %s' % (v, self.toF(t, ty))], v, 'F'
             if isinstance(f, ast.Name) and self.env.get(f.id, (None,))[0] == 'LAM':
                 lam = self.env[f.id][1]
                 params = [a.arg for a in lam.args.args]
@@ -364,7 +370,7 @@ result = type_b.line_fit_wtls(x_u,y_u,a_b=a0_b0)
 a, b = result.a_b
 N = result.N
 ssr = result.ssr
-r_ab = a.get_correlation(b)
+r_ab = %(RAB)s
 a = ureal(a.x, a.u, df, label='a_{}'.format(label) if label is not None else None, independent=False)
 b = ureal(b.x, b.u, df, label='b_{}'.format(label) if label is not None else None, independent=False)
 real_ensemble( (a,b), df )
@@ -403,6 +409,13 @@ def pred_tail(template, var):
         return c.close(pre, 'Ok (mkPS %s %s %s)' % (x, u, ind))
     return tail
 
+CLIP_R = '''
+if 1.0 < abs(r) < 1.0 + 1E-10:
+    return 1.0 if r > 0.0 else -1.0
+else:
+    return r
+'''
+
 VT = '(T N)'
 LT = '(list (T N))'
 
@@ -414,7 +427,7 @@ def generate(repo):
            'From GTCV Require Import Num Vector Opres KTypes FitLib.',
            'Import ListNotations.', '']
     status = {}
-    state = {'wls': False}
+    state = {'wls': False, 'clip': False, 'wtls_clip': None}
 
     def emit(gname, params, rtype, thunk):
         try:
@@ -431,8 +444,21 @@ def generate(repo):
         return fn
 
     def new(env):
-        c = Comp(env); c.have_wls = state['wls']; c.label_param = None
+        c = Comp(env); c.have_wls = state['wls']; c.have_clip = state['clip']; c.label_param = None
         return c
+
+    # ---- _clip_r: r with rounding error just outside [-1,1] removed (compared with the modelled shape;
+    #      Python's chained comparison a < b < c is (a < b) and (b < c))
+    def th():
+        fn = getfn('_clip_r'); check_sig(fn, ['r'], 0)
+        if not same_ast(strip_doc(fn.body), CLIP_R): raise Untranslatable('_clip_r differs from the modelled shape')
+        kind, (m, e) = dyadic(1E-10)
+        one = '(dyad N 1%Z 0%Z)'
+        return ('(if (andb (ltb N %s (nabs N r)) (ltb N (nabs N r) (add N %s (dyad N %s %s)))) then\n'
+                '     (Ok (if (ltb N (dyad N 0%%Z 0%%Z) r) then %s else (neg N %s)))\n   else (Ok r))'
+                % (one, one, zlit(m), zlit(e), one, one))
+    emit('g_fit_clip_r', '(r : %s)' % VT, VT, th)
+    state['clip'] = status['g_fit_clip_r']
 
     # ---- _line_fit_wls
     def th():
@@ -471,12 +497,24 @@ def generate(repo):
         def is_tail(s):
             return (isinstance(s, ast.Assign) and isinstance(s.targets[0], ast.Name) and s.targets[0].id == 'independent')
         def tail(c, stmts):
-            if not same_ast(stmts, WTLS_REST): raise Untranslatable('wrapper body differs from the modelled shape')
+            # the correlation of the type-B result is re-declared either as it is or through _clip_r
+            if same_ast(stmts, WTLS_REST % {'RAB': '_clip_r( a.get_correlation(b) )'}): state['wtls_clip'] = True
+            elif same_ast(stmts, WTLS_REST % {'RAB': 'a.get_correlation(b)'}): state['wtls_clip'] = False
+            else: raise Untranslatable('wrapper body differs from the modelled shape')
             ty, t = c.env.get('df', (None, None))
             if ty != 'D': raise Untranslatable('df')
             return 'Ok %s' % t
         return c.block(strip_doc(fn.body), is_tail, tail)
     emit('g_line_fit_wtls_df', '(x y u_x u_y : %s) (dof : dofarg (T N))' % LT, '(dfval %s)' % VT, th)
+
+    # ---- what the wrapper does to the correlation r of the type-B result before a.set_correlation(r_ab, b)
+    def th():
+        if not status.get('g_line_fit_wtls_df'): raise Untranslatable('the wrapper was not translated')
+        if state['wtls_clip']:
+            if not state['clip']: raise Untranslatable('_clip_r was not translated')
+            return '(c_1 <- g_fit_clip_r N r ;;\n   Ok c_1)'
+        return 'Ok r'
+    emit('g_line_fit_wtls_r', '(r : %s)' % VT, VT, th)
 
     # ---- prediction methods
     PRED = [
